@@ -64,4 +64,515 @@ theorem Dense.setSubscripts_eq [Zero α] (T : Dense α) (rows : List (List Nat))
             simp [List.getD_eq_getElem?_getD, List.getElem?_eq_none (Nat.le_of_not_lt hmn)]
           simp [hmn, this]
 
+/-! ### refinement of a write -/
+
+/-- Outcome of the same write on the model and on the specification: both reject, or
+both accept with related results. -/
+def RefW [Zero α] (a : Except Reject (Dense α)) (b : Except Reject (MArr α)) : Prop :=
+  match a, b with
+  | .ok T', .ok m' => DRel T' m'
+  | .error _, .error _ => True
+  | _, _ => False
+
+/-- A write that computes the specification's new shape and assignments refines it. -/
+theorem RefW.of_eq [Zero α] {T : Dense α} {m : MArr α} (h : DRel T m) (key : Key) (rhs : Rhs α)
+    (a : Except Reject (Dense α))
+    (ha : a = (MArr.resolveWrite T.shape key rhs).map fun r => (T.resize r.1).scatter r.2) :
+    RefW a (m.write key rhs) := by
+  subst ha
+  unfold MArr.write
+  rw [← h.shape]
+  cases hr : MArr.resolveWrite T.shape key rhs with
+  | error e => simp [RefW, Except.map, bind, Except.bind]
+  | ok r =>
+    obtain ⟨s', asg⟩ := r
+    simp only [RefW, Except.map, bind, Except.bind]
+    exact h.write s' asg (resolveWrite_inBounds hr)
+
+/-! ### linear keys -/
+
+theorem cells_eq_numel {s : List Nat} (hs : s ≠ []) : MArr.cells s = numel s := by
+  unfold MArr.cells
+  cases s with
+  | nil => exact absurd rfl hs
+  | cons a s => simp
+
+theorem ttInd2sub_cons (s : List Nat) (i : Int) (idx : List Int) :
+    ttInd2sub s (i :: idx) =
+      (let j := if i < 0 then i + (numel s : Int) else i
+       if 0 ≤ j ∧ j < (numel s : Int) then
+         match ttInd2sub s idx with
+         | .ok t => .ok (ind2sub s j.toNat :: t)
+         | .error e => .error e
+       else .error .reject) := by
+  unfold ttInd2sub
+  simp only [List.map_cons, List.all_cons]
+  by_cases h1 : 0 ≤ (if i < 0 then i + (numel s : Int) else i) ∧ (if i < 0 then i + (numel s : Int) else i) < (numel s : Int)
+  · have : (decide (0 ≤ (if i < 0 then i + (numel s : Int) else i)) &&
+        decide ((if i < 0 then i + (numel s : Int) else i) < (numel s : Int))) = true := by
+      simp [h1.1, h1.2]
+    rw [if_pos h1]
+    simp only [this, Bool.true_and]
+    split <;> rfl
+  · have : (decide (0 ≤ (if i < 0 then i + (numel s : Int) else i)) &&
+        decide ((if i < 0 then i + (numel s : Int) else i) < (numel s : Int))) = false := by
+      rw [Bool.and_eq_false_iff]
+      by_cases h0 : 0 ≤ (if i < 0 then i + (numel s : Int) else i)
+      · right
+        have : ¬ (if i < 0 then i + (numel s : Int) else i) < (numel s : Int) := fun hc => h1 ⟨h0, hc⟩
+        simpa using this
+      · left; simp [h0]
+    rw [if_neg h1]
+    simp [this]
+
+theorem ttInd2sub_eq_linTargets {s : List Nat} (hs : s ≠ []) (idx : List Int) :
+    ttInd2sub s idx = MArr.linTargets s idx := by
+  induction idx with
+  | nil => simp [ttInd2sub, MArr.linTargets, List.mapM_nil, pure, Except.pure]
+  | cons i idx ih =>
+    rw [ttInd2sub_cons, ih]
+    unfold MArr.linTargets
+    rw [List.mapM_cons]
+    simp only [MArr.linTarget, cells_eq_numel hs, bind, Except.bind, pure, Except.pure]
+    split
+    · next hneg =>
+      by_cases hr : 0 ≤ i + (numel s : Int) ∧ i + (numel s : Int) < (numel s : Int)
+      · rw [if_pos hr, if_pos hr]; cases List.mapM (MArr.linTarget s) idx <;> rfl
+      · rw [if_neg hr, if_neg hr]
+    · next hneg =>
+      by_cases hr : 0 ≤ i ∧ i < (numel s : Int)
+      · rw [if_pos hr, if_pos hr]; cases List.mapM (MArr.linTarget s) idx <;> rfl
+      · rw [if_neg hr, if_neg hr]
+
+theorem Dense.resize_self [Zero α] (T : Dense α) : T.resize T.shape = T := by
+  simp [Dense.resize]
+
+theorem mapM_error_of_mem {β γ : Type} (f : β → Except Reject γ) (l : List β) (x : β) (hx : x ∈ l)
+    (hf : f x = .error .reject) : l.mapM f = .error .reject := by
+  induction l with
+  | nil => cases hx
+  | cons a l ih =>
+    rw [List.mapM_cons]
+    simp only [bind, Except.bind, pure, Except.pure]
+    cases ha : f a with
+    | error e => cases e; rfl
+    | ok v =>
+      rcases List.mem_cons.1 hx with rfl | hx'
+      · rw [hf] at ha; cases ha
+      · rw [ih hx']
+
+theorem linTarget_error_of_gt {s : List Nat} {i : Int} (h : i > (numel s : Int)) (hs : s ≠ []) :
+    MArr.linTarget s i = .error .reject := by
+  unfold MArr.linTarget
+  simp only [cells_eq_numel hs]
+  have hneg : ¬ i < 0 := by omega
+  rw [if_neg hneg]
+  have : ¬ (0 ≤ i ∧ i < (numel s : Int)) := by omega
+  rw [if_neg this]
+
+/-- `_set_linear` computes the specification's assignments (no resizing). -/
+theorem Dense.setLinear_eq [Zero α] (T : Dense α) (hs : T.shape ≠ []) (key : Key) (rhs : Rhs α)
+    (hk : ∀ rows, key ≠ .subs rows) (hk' : ∀ parts, key ≠ .region parts) :
+    T.setLinear key rhs =
+      (MArr.resolveWrite T.shape key rhs).map fun r => (T.resize r.1).scatter r.2 := by
+  have tail : ∀ idx : List Int,
+      (do let subs ← ttInd2sub T.shape idx
+          let vals ← npValuesList rhs subs.length
+          Except.ok (T.scatter (subs.zip vals))) =
+      (do let targets ← MArr.linTargets T.shape idx
+          let vals ← MArr.listValues rhs targets.length
+          (Except.ok (T.shape, targets.zip vals) : Except Reject (List Nat × List (List Nat × α)))).map
+        (fun (r : List Nat × List (List Nat × α)) => (T.resize r.1).scatter r.2) := by
+    intro idx
+    rw [ttInd2sub_eq_linTargets hs]
+    cases MArr.linTargets T.shape idx with
+    | error e => rfl
+    | ok t =>
+      simp only [bind, Except.bind, npValuesList_eq]
+      cases MArr.listValues rhs t.length with
+      | error e => rfl
+      | ok vals => simp [Except.map, Dense.resize_self]
+  cases key with
+  | subs rows => exact absurd rfl (hk rows)
+  | region parts => exact absurd rfl (hk' parts)
+  | lin i =>
+    simp only [Dense.setLinear, MArr.resolveWrite, MArr.linIdx]
+    by_cases hi : i > (numel T.shape : Int)
+    · have h1 : MArr.linTargets T.shape [i] = .error .reject :=
+        mapM_error_of_mem _ _ i (by simp) (linTarget_error_of_gt hi hs)
+      simp [hi, bind, Except.bind, pure, Except.pure, h1, Except.map]
+    · simp only [hi, ↓reduceIte]
+      exact tail [i]
+  | linList is =>
+    simp only [Dense.setLinear, MArr.resolveWrite, MArr.linIdx]
+    by_cases hi : is.any (fun x => decide (x > (numel T.shape : Int))) = true
+    · obtain ⟨x, hx, hgt⟩ := List.any_eq_true.1 hi
+      have h1 : MArr.linTargets T.shape is = .error .reject :=
+        mapM_error_of_mem _ _ x hx (linTarget_error_of_gt (by simpa using hgt) hs)
+      simp [hi, bind, Except.bind, pure, Except.pure, h1, Except.map]
+    · simp only [hi, Bool.false_eq_true, ↓reduceIte]
+      exact tail is
+  | linSlice a b c =>
+    simp only [Dense.setLinear, MArr.resolveWrite, MArr.linIdx, cells_eq_numel hs]
+    cases pySlice (numel T.shape) a b c with
+    | error e => rfl
+    | ok l => exact tail (l.map Int.ofNat)
+
+/-! ### integer / slice regions -/
+
+def RPart.simple : RPart → Bool
+  | .list _ => false
+  | _ => true
+
+/-- A region mode of the specification as NumPy sees the key element. -/
+def toNPart (r : Nat × List Nat × Bool) : NPart :=
+  if r.2.2 then .slice r.2.1 else .int (r.2.1.headD 0)
+
+theorem part_simple_int_none (i : Int) :
+    (do let x ← Dense.newExtent none (.int i); let np ← npPart x (.int i); pure (x, np) : Except Reject (Nat × NPart)) =
+    (MArr.regionPart 0 true true (.int i)).map (fun r => (r.1, toNPart r)) := by
+  simp only [Dense.newExtent, Dense.sliceCheck, npPart, MArr.regionPart, bind, Except.bind, pure, Except.pure,
+    Except.map]
+  by_cases hi : 0 ≤ i
+  · have h0 : ¬ (i + 1 < 0) := by omega
+    have h1 : ¬ i < 0 := by omega
+    have h2 : (0 ≤ i ∧ i < (((i + 1)).toNat : Int)) := by omega
+    simp only [hi, h0, h1, if_true, if_false, h2, and_self, or_true, toNPart]
+    simp
+    omega
+  · have h1 : i < 0 := by omega
+    have h3 : ¬ (0 ≤ i + ((0 : Nat) : Int)) := by omega
+    simp only [hi, if_false, h3]
+    by_cases h0 : i + 1 < 0
+    · simp [h0]
+    · have hz : (i + 1).toNat = 0 := by omega
+      have : ¬ (0 ≤ i + ((0 : Nat) : Int) ∧ i + ((0 : Nat) : Int) < ((0 : Nat) : Int)) := by omega
+      simp [h0, hz, h1, hi]
+
+theorem part_simple_slice_some (e : Nat) (a b c : Option Int) :
+    (do let x ← Dense.newExtent (some e) (.slice a b c); let np ← npPart x (.slice a b c); pure (x, np) : Except Reject (Nat × NPart)) =
+    (MArr.regionPart e false true (.slice a b c)).map (fun r => (r.1, toNPart r)) := by
+  simp only [Dense.newExtent, Dense.sliceCheck, npPart, MArr.regionPart, MArr.sliceExtent, bind, Except.bind, pure,
+    Except.pure, Except.map]
+  cases b with
+  | none =>
+    have h0 : ¬ (max (e : Int) ((e : Int) - 1 + 1) < 0) := by omega
+    have he : (max (e : Int) ((e : Int) - 1 + 1)).toNat = e := by omega
+    simp only [h0, if_false, he, if_true]
+    rcases hs : pySlice e a none c with _ | l <;> simp [hs, toNPart]
+  | some b =>
+    have h0 : ¬ (max (e : Int) (b - 1 + 1) < 0) := by omega
+    simp only [h0, if_false, if_true]
+    by_cases hb : 0 ≤ b
+    · have he : (max (e : Int) (b - 1 + 1)).toNat = max e b.toNat := by omega
+      simp only [hb, if_true, he]
+      rcases hs : pySlice (max e b.toNat) a (some b) c with _ | l <;> simp [hs, toNPart]
+    · have he : (max (e : Int) (b - 1 + 1)).toNat = e := by omega
+      simp only [hb, if_false, he]
+      rcases hs : pySlice e a (some b) c with _ | l <;> simp [hs, toNPart]
+
+theorem part_simple_slice_none (a b c : Option Int) :
+    (do let x ← Dense.newExtent none (.slice a b c); let np ← npPart x (.slice a b c); pure (x, np) : Except Reject (Nat × NPart)) =
+    (MArr.regionPart 0 true true (.slice a b c)).map (fun r => (r.1, toNPart r)) := by
+  simp only [Dense.newExtent, Dense.sliceCheck, npPart, MArr.regionPart, MArr.sliceExtent, bind, Except.bind, pure,
+    Except.pure, Except.map]
+  cases b with
+  | none =>
+    simp only [if_true]
+    have : ¬ ((0 : Int) + 1 < 0) := by omega
+    simp only [this, if_false]
+    have h1 : ((0 : Int) + 1).toNat = 1 := by omega
+    rw [h1]
+    rcases hs : pySlice 1 a none c with _ | l <;> simp [hs, toNPart]
+  | some b =>
+    simp only [if_true]
+    by_cases hb : 0 ≤ b
+    · have h0 : ¬ (b - 1 + 1 < 0) := by omega
+      have he : (b - 1 + 1).toNat = max 0 b.toNat := by omega
+      simp only [h0, hb, if_true, if_false, he]
+      rcases hs : pySlice (max 0 b.toNat) a (some b) c with _ | l <;> simp [hs, toNPart]
+    · have h0 : (b - 1 + 1 < 0) := by omega
+      have h1 : b < 0 := by omega
+      simp [h1, hb]
+
+theorem part_simple_int_some (e : Nat) (i : Int) :
+    (do let x ← Dense.newExtent (some e) (.int i); let np ← npPart x (.int i); pure (x, np) : Except Reject (Nat × NPart)) =
+    (MArr.regionPart e false true (.int i)).map (fun r => (r.1, toNPart r)) := by
+  simp only [Dense.newExtent, Dense.sliceCheck, npPart, MArr.regionPart, bind, Except.bind, pure, Except.pure,
+    Except.map]
+  have hraw : ¬ (max (e : Int) (i + 1) < 0) := by omega
+  rw [if_neg hraw]
+  by_cases hi : 0 ≤ i
+  · have h1 : ¬ i < 0 := by omega
+    have h2 : (0 ≤ i ∧ i < ((max (e : Int) (i + 1)).toNat : Int)) := by omega
+    simp only [hi, h1, if_true, if_false, h2, and_self, or_true, toNPart]
+    simp
+    omega
+  · have h1 : i < 0 := by omega
+    have he : (max (e : Int) (i + 1)).toNat = e := by omega
+    simp only [hi, h1, if_true, if_false, he]
+    by_cases h3 : 0 ≤ i + (e : Int)
+    · have : 0 ≤ i + (e : Int) ∧ i + (e : Int) < (e : Int) := by omega
+      simp [h3, this, toNPart]
+    · have : ¬ (0 ≤ i + (e : Int) ∧ i + (e : Int) < (e : Int)) := by omega
+      simp [h3]
+
+/-- Per key element: the model's growth rule followed by NumPy's resolution of the element
+against the new extent is the specification's reading of the element. -/
+theorem part_simple (ext : Option Nat) (p : RPart) (hp : p.simple = true) :
+    (do let x ← Dense.newExtent ext p; let np ← npPart x p; pure (x, np) : Except Reject (Nat × NPart)) =
+    (MArr.regionPart (ext.getD 0) ext.isNone true p).map (fun r => (r.1, toNPart r)) := by
+  cases p with
+  | list is => simp [RPart.simple] at hp
+  | int i => cases ext with
+    | none => exact part_simple_int_none i
+    | some e => exact part_simple_int_some e i
+  | slice a b c => cases ext with
+    | none => exact part_simple_slice_none a b c
+    | some e => exact part_simple_slice_some e a b c
+
+
+theorem except_bind_swap {A B C D E : Type} (a : Except Reject A) (b : Except Reject B)
+    (c : A → Except Reject C) (d : B → Except Reject D) (k : A → B → C → D → E) :
+    (do let x ← a; let y ← b; let z ← c x; let w ← d y; pure (k x y z w) : Except Reject E) =
+    (do let xz ← (do let x ← a; let z ← c x; pure (x, z) : Except Reject (A × C))
+        let yw ← (do let y ← b; let w ← d y; pure (y, w) : Except Reject (B × D))
+        pure (k xz.1 yw.1 xz.2 yw.2)) := by
+  rcases a with ⟨⟨⟩⟩ | x
+  · rfl
+  · rcases b with ⟨⟨⟩⟩ | y
+    · simp only [bind, Except.bind, pure, Except.pure]
+      rcases c x with ⟨⟨⟩⟩ | z <;> rfl
+    · simp only [bind, Except.bind, pure, Except.pure]
+      rcases c x with ⟨⟨⟩⟩ | z
+      · rfl
+      · rcases d y with ⟨⟨⟩⟩ | w <;> rfl
+
+/-- Whole key: growth rule + NumPy resolution = the specification's reading of the region. -/
+theorem region_simple (s : List Nat) (parts : List RPart) (hp : parts.all RPart.simple = true) :
+    (do let s' ← Dense.newSizeParts s parts; let ps ← npParts s' parts; pure (s', ps) :
+        Except Reject (List Nat × List NPart)) =
+    (MArr.regionParts true s parts).map (fun rs => (rs.map (·.1), rs.map toNPart)) := by
+  induction parts generalizing s with
+  | nil =>
+    cases s with
+    | nil => rfl
+    | cons e es => rfl
+  | cons p ps ih =>
+    simp only [List.all_cons, Bool.and_eq_true] at hp
+    cases s with
+    | nil =>
+      have h1 := part_simple none p hp.1
+      have h2 := ih [] hp.2
+      simp only [Option.getD_none, Option.isNone_none] at h1
+      have swap := except_bind_swap (Dense.newExtent none p) (Dense.newSizeParts [] ps)
+        (fun x => npPart x p) (fun es => npParts es ps) (fun x es np nps => (x :: es, np :: nps))
+      calc (do let s' ← Dense.newSizeParts [] (p :: ps); let qs ← npParts s' (p :: ps); pure (s', qs) :
+              Except Reject (List Nat × List NPart))
+          = (do let x ← Dense.newExtent none p; let es ← Dense.newSizeParts [] ps
+                let np ← npPart x p; let nps ← npParts es ps; pure (x :: es, np :: nps)) := by
+            simp only [Dense.newSizeParts, npParts, bind, Except.bind, pure, Except.pure]
+            rcases Dense.newExtent none p with ⟨⟨⟩⟩ | x
+            · rfl
+            · rcases Dense.newSizeParts [] ps with ⟨⟨⟩⟩ | es
+              · rfl
+              · simp only [npParts, bind, Except.bind, pure, Except.pure]
+                rcases npPart x p with ⟨⟨⟩⟩ | np
+                · rfl
+                · rcases npParts es ps with ⟨⟨⟩⟩ | nps <;> rfl
+        _ = _ := by
+            rw [swap, h1, h2]
+            simp only [MArr.regionParts, Bool.not_true, Bool.false_eq_true, ↓reduceIte, bind, Except.bind, pure,
+              Except.pure, Except.map]
+            rcases MArr.regionPart 0 true true p with ⟨⟨⟩⟩ | r
+            · rfl
+            · rcases MArr.regionParts true [] ps with ⟨⟨⟩⟩ | rs <;> rfl
+    | cons e es =>
+      have h1 := part_simple (some e) p hp.1
+      have h2 := ih es hp.2
+      simp only [Option.getD_some, Option.isNone_some] at h1
+      have swap := except_bind_swap (Dense.newExtent (some e) p) (Dense.newSizeParts es ps)
+        (fun x => npPart x p) (fun es' => npParts es' ps) (fun x es' np nps => (x :: es', np :: nps))
+      calc (do let s' ← Dense.newSizeParts (e :: es) (p :: ps); let qs ← npParts s' (p :: ps); pure (s', qs) :
+              Except Reject (List Nat × List NPart))
+          = (do let x ← Dense.newExtent (some e) p; let es' ← Dense.newSizeParts es ps
+                let np ← npPart x p; let nps ← npParts es' ps; pure (x :: es', np :: nps)) := by
+            simp only [Dense.newSizeParts, npParts, bind, Except.bind, pure, Except.pure]
+            rcases Dense.newExtent (some e) p with ⟨⟨⟩⟩ | x
+            · rfl
+            · rcases Dense.newSizeParts es ps with ⟨⟨⟩⟩ | es'
+              · rfl
+              · simp only [npParts, bind, Except.bind, pure, Except.pure]
+                rcases npPart x p with ⟨⟨⟩⟩ | np
+                · rfl
+                · rcases npParts es' ps with ⟨⟨⟩⟩ | nps <;> rfl
+        _ = _ := by
+            rw [swap, h1, h2]
+            simp only [MArr.regionParts, bind, Except.bind, pure, Except.pure, Except.map]
+            rcases MArr.regionPart e false true p with ⟨⟨⟩⟩ | r
+            · rfl
+            · rcases MArr.regionParts true es ps with ⟨⟨⟩⟩ | rs <;> rfl
+
+/-- A mode that is dropped from the result (an integer) addresses exactly one index. -/
+theorem regionPart_dropped {ext : Nat} {isNew grow : Bool} {p : RPart} {r : Nat × List Nat × Bool}
+    (h : MArr.regionPart ext isNew grow p = .ok r) (hk : r.2.2 = false) : r.2.1 = [r.2.1.headD 0] := by
+  cases p with
+  | int i =>
+    simp only [MArr.regionPart] at h
+    split at h
+    · split at h
+      · cases h; rfl
+      · cases h
+    · split at h
+      · cases h; rfl
+      · cases h
+  | list is =>
+    simp only [MArr.regionPart] at h
+    split at h
+    · cases h
+    · split at h
+      · cases h; cases hk
+      · cases h
+  | slice a b c =>
+    simp only [MArr.regionPart, bind, Except.bind] at h
+    split at h
+    · cases h
+    · split at h
+      · cases h
+      · cases h; cases hk
+
+theorem regionParts_dropped {grow : Bool} {s : List Nat} {parts : List RPart} {rs : List (Nat × List Nat × Bool)}
+    (h : MArr.regionParts grow s parts = .ok rs) : ∀ r ∈ rs, r.2.2 = false → r.2.1 = [r.2.1.headD 0] := by
+  induction parts generalizing s rs with
+  | nil =>
+    cases s with
+    | nil => simp [MArr.regionParts] at h; subst h; simp
+    | cons e es => simp [MArr.regionParts] at h
+  | cons p ps ih =>
+    cases s with
+    | nil =>
+      simp only [MArr.regionParts] at h
+      cases grow with
+      | false => simp [bind, Except.bind] at h
+      | true =>
+        simp only [Bool.not_true, Bool.false_eq_true, ↓reduceIte, bind, Except.bind, pure, Except.pure] at h
+        cases h1 : MArr.regionPart 0 true true p with
+        | error e => rw [h1] at h; cases h
+        | ok r =>
+          rw [h1] at h
+          cases h2 : MArr.regionParts true [] ps with
+          | error e => rw [h2] at h; cases h
+          | ok rs' =>
+            rw [h2] at h
+            cases h
+            intro r' hr'
+            rcases List.mem_cons.1 hr' with rfl | hr''
+            · exact regionPart_dropped h1
+            · exact ih h2 r' hr''
+    | cons e es =>
+      simp only [MArr.regionParts, bind, Except.bind, pure, Except.pure] at h
+      cases h1 : MArr.regionPart e false grow p with
+      | error e' => rw [h1] at h; cases h
+      | ok r =>
+        rw [h1] at h
+        cases h2 : MArr.regionParts grow es ps with
+        | error e' => rw [h2] at h; cases h
+        | ok rs' =>
+          rw [h2] at h
+          cases h
+          intro r' hr'
+          rcases List.mem_cons.1 hr' with rfl | hr''
+          · exact regionPart_dropped h1
+          · exact ih h2 r' hr''
+
+theorem outerF_length (ls : List (List Nat)) : (outerF ls).length = numel (ls.map List.length) := by
+  induction ls with
+  | nil => rfl
+  | cons l ls ih =>
+    simp only [outerF, List.map_cons, numel_cons, List.length_flatMap, List.length_map]
+    rw [← ih]
+    generalize outerF ls = o
+    induction o with
+    | nil => simp
+    | cons a o iho => simp [iho, Nat.mul_succ, Nat.add_comm]
+
+theorem numel_keptShape (rs : List (Nat × List Nat × Bool))
+    (hd : ∀ r ∈ rs, r.2.2 = false → r.2.1 = [r.2.1.headD 0]) :
+    numel (MArr.keptShape rs) = numel ((rs.map (·.2.1)).map List.length) := by
+  induction rs with
+  | nil => rfl
+  | cons r rs ih =>
+    have ih' := ih (fun r' hr' => hd r' (by simp [hr']))
+    unfold MArr.keptShape at *
+    cases hk : r.2.2 with
+    | true => simp [hk, ih']
+    | false =>
+      have h1 := hd r (by simp) hk
+      have : r.2.1.length = 1 := by rw [h1]; rfl
+      simp [hk, ih', this]
+
+theorem npIndex_simple (rs : List (Nat × List Nat × Bool))
+    (hd : ∀ r ∈ rs, r.2.2 = false → r.2.1 = [r.2.1.headD 0]) :
+    npIndex (rs.map toNPart) = .ok (MArr.keptShape rs, outerF (rs.map (·.2.1))) := by
+  have hnl : (rs.map toNPart).any NPart.isList = false := by
+    rw [List.any_eq_false]
+    intro q hq
+    obtain ⟨r, _, rfl⟩ := List.mem_map.1 hq
+    unfold toNPart
+    split <;> simp [NPart.isList]
+  unfold npIndex
+  simp only [hnl, Bool.not_false, ↓reduceIte]
+  congr 2
+  · unfold MArr.keptShape
+    induction rs with
+    | nil => rfl
+    | cons r rs ih =>
+      have ih' := ih (fun r' hr' => hd r' (by simp [hr']))
+        (by rw [List.any_eq_false] at *; intro q hq; exact hnl q (by simp [hq]))
+      cases hk : r.2.2 <;> simp [toNPart, hk, ih']
+  · congr 1
+    rw [List.map_map]
+    apply List.map_congr_left
+    intro r hr
+    simp only [Function.comp, toNPart]
+    cases hk : r.2.2 with
+    | true => simp
+    | false => simp only [Bool.false_eq_true, ↓reduceIte]; exact (hd r hr hk).symm
+
+/-- `_set_subtensor` with an integer/slice key and a scalar computes the specification's new
+shape and assignments. -/
+theorem Dense.setSubtensor_eq [Zero α] (T : Dense α) (parts : List RPart) (v : α)
+    (hp : parts.all RPart.simple = true) (hne : parts ≠ []) :
+    T.setSubtensor parts (.scalar v) =
+      (MArr.resolveWrite T.shape (.region parts) (.scalar v)).map fun r => (T.resize r.1).scatter r.2 := by
+  have hreg := region_simple T.shape parts hp
+  have hemp : parts.isEmpty = false := by cases parts <;> simp_all
+  simp only [Dense.setSubtensor, MArr.resolveWrite, hemp, Bool.false_eq_true, ↓reduceIte]
+  cases hr : MArr.regionParts true T.shape parts with
+  | error e =>
+    rw [hr] at hreg
+    simp only [Except.map, bind, Except.bind, pure, Except.pure] at hreg ⊢
+    rcases hn : Dense.newSizeParts T.shape parts with ⟨⟨⟩⟩ | s'
+    · rfl
+    · rw [hn] at hreg
+      simp only [Dense.resize_shape] at hreg ⊢
+      rcases hq : npParts s' parts with ⟨⟨⟩⟩ | ps
+      · rfl
+      · rw [hq] at hreg; cases hreg
+  | ok rs =>
+    rw [hr] at hreg
+    simp only [Except.map, bind, Except.bind, pure, Except.pure] at hreg ⊢
+    have hd := regionParts_dropped hr
+    rcases hn : Dense.newSizeParts T.shape parts with ⟨⟨⟩⟩ | s'
+    · rw [hn] at hreg; cases hreg
+    · rw [hn] at hreg
+      simp only [Dense.resize_shape] at hreg ⊢
+      rcases hq : npParts s' parts with ⟨⟨⟩⟩ | ps
+      · rw [hq] at hreg; cases hreg
+      · rw [hq] at hreg
+        simp only [Except.ok.injEq, Prod.mk.injEq] at hreg
+        obtain ⟨rfl, rfl⟩ := hreg
+        simp only [npIndex_simple rs hd, npBroadcast, MArr.regionValues]
+        rw [outerF_length, numel_keptShape rs hd]
+
 end Pyttb
